@@ -1,4 +1,5 @@
 import UtilModel.Model.Hist
+import UtilModel.Gen.Facts
 /-!
 # C17 — Failed parses leave receiver and input untouched; string and bytes agree
 
@@ -62,5 +63,14 @@ example :
 example :
     final (.date Date.zero) [.text [50,48,50,52,45,48,50,45,50,57], .text [120], .binary [1,0,0,7,230,13,32]]
       = .date (Date.new 2024 2 29) := by decide
+
+/-- **structure facts extracted from the source on this run**: in every `Unmarshal*` method the assignments
+through the receiver are top-level statements that come after every check (no `if`, no error return
+follows the first of them) — so a call that returns an error has not touched the receiver -/
+theorem receiver_assign_facts :
+    Gen.date_Date_UnmarshalBinary_assignsAfterChecks = true ∧ Gen.date_Date_UnmarshalText_assignsAfterChecks = true ∧
+    Gen.roman_Number_UnmarshalText_assignsAfterChecks = true ∧ Gen.sem_Ver_UnmarshalText_assignsAfterChecks = true ∧
+    Gen.size_Size_UnmarshalText_assignsAfterChecks = true ∧ Gen.size_Size_UnmarshalJSON_assignsAfterChecks = true ∧
+    Gen.uu_ID_UnmarshalText_assignsAfterChecks = true := by decide
 
 end U.Props.C17
